@@ -38,8 +38,8 @@ type c05 struct{}
 
 func init() { core.Register(c05{}) }
 
-func (c05) ID() string    { return "C05" }
-func (c05) Level() string { return "model_checking" }
+func (c05) ID() string     { return "C05" }
+func (c05) Level() string  { return "model_checking" }
 func (c05) Binary() string { return "ov" }
 func (c05) Rule() string {
 	return "all import graphs on N files (ordered import lists without repetition, self loops, cycles, diamonds; up to relabelling of non-root files; every file reachable) x depth limits 0..N x spelling variants, and for each ALL schedules of the concurrent retrieval (claim and read points of every retrieval goroutine; state-pruned DFS on the real parse.Parser.Parse). Non-trivial = a case whose exploration contains at least one choice point with two or more enabled threads; distinct by (graph, limit, spelling)"
@@ -55,14 +55,14 @@ func (c05) Assumptions() []string {
 func (c05) CaseTimeout() time.Duration { return 15 * time.Minute }
 
 type graphCase struct {
-	N       int        `json:"n"`
-	Imports [][]string `json:"imports"` // per file: import statement targets as written
-	Names   []string   `json:"names"`   // canonical file names (a.sysl ...)
-	Root    string     `json:"root"`    // root resource as given to Parse
-	Limit   int        `json:"limit"`
-	Edges   [][]int    `json:"edges"` // per file: indices of imported files (reference model)
+	N       int               `json:"n"`
+	Imports [][]string        `json:"imports"` // per file: import statement targets as written
+	Names   []string          `json:"names"`   // canonical file names (a.sysl ...)
+	Root    string            `json:"root"`    // root resource as given to Parse
+	Limit   int               `json:"limit"`
+	Edges   [][]int           `json:"edges"`            // per file: indices of imported files (reference model)
 	Faults  map[string]string `json:"faults,omitempty"` // canonical file -> fault kind (C06)
-	Label   string     `json:"label"`
+	Label   string            `json:"label"`
 	Extra   map[string]string `json:"extra,omitempty"` // explicit file contents (foreign cases)
 }
 
@@ -216,8 +216,8 @@ var namedShapes4 = map[string][][]int{
 }
 
 var namedShapes5 = map[string][][]int{
-	"long-short-5": {{1, 2}, {4}, {3}, {4}, {}},       // root->{b,c}, b->e ; c->d->e
-	"depth-defect": {{1, 2}, {4}, {3}, {4}, {0}},      // with a back edge from e
+	"long-short-5": {{1, 2}, {4}, {3}, {4}, {}},  // root->{b,c}, b->e ; c->d->e
+	"depth-defect": {{1, 2}, {4}, {3}, {4}, {0}}, // with a back edge from e
 	"ladder":       {{1, 2}, {3}, {3, 4}, {4}, {}},
 	"ring5":        {{1}, {2}, {3}, {4}, {0}},
 	"star-back":    {{1, 2, 3}, {4}, {4}, {4}, {0}},
@@ -451,10 +451,10 @@ func (c *stdoutCapture) done() string {
 }
 
 type retrievalObs struct {
-	Files []string       `json:"files"`
-	Err   string         `json:"err"`
-	Reads map[string]int `json:"reads"`
-	NilMod bool          `json:"nilmod"`
+	Files  []string       `json:"files"`
+	Err    string         `json:"err"`
+	Reads  map[string]int `json:"reads"`
+	NilMod bool           `json:"nilmod"`
 }
 
 func (o retrievalObs) String() string {
